@@ -116,7 +116,7 @@ func (b *IntsBuilder) IndirectCalls(sourceApp, epname string, t *sysl.Statement)
 	if syslutil.HasPattern(b.M.GetApps()[targetApp].GetAttrs(), "human") {
 		return
 	}
-	if !syslutil.HasPattern(b.M.GetApps()[targetApp].Endpoints[call.Endpoint].GetAttrs(), "hidden") {
+	if !syslutil.HasPattern(b.M.GetApps()[targetApp].GetEndpoints()[call.Endpoint].GetAttrs(), "hidden") {
 		b.AddCall(sourceApp, epname, t)
 	}
 }
@@ -133,7 +133,7 @@ func (b *IntsBuilder) MyCallers(sourceApp, epname string, t *sysl.Statement) {
 	if syslutil.HasPattern(b.M.GetApps()[targetApp].GetAttrs(), "human") {
 		return
 	}
-	if !syslutil.HasPattern(b.M.GetApps()[targetApp].Endpoints[call.Endpoint].GetAttrs(), "hidden") {
+	if !syslutil.HasPattern(b.M.GetApps()[targetApp].GetEndpoints()[call.Endpoint].GetAttrs(), "hidden") {
 		b.AddCall(sourceApp, epname, t)
 	}
 	b.FinalApps = append(b.FinalApps, sourceApp)
@@ -162,7 +162,7 @@ func (b *IntsBuilder) ProcessExcludeAndPassthrough(sourceApp, epname string, t *
 	if syslutil.HasPattern(b.M.GetApps()[targetApp].GetAttrs(), "human") {
 		return
 	}
-	if !syslutil.HasPattern(b.M.GetApps()[targetApp].Endpoints[call.Endpoint].GetAttrs(), "hidden") {
+	if !syslutil.HasPattern(b.M.GetApps()[targetApp].GetEndpoints()[call.Endpoint].GetAttrs(), "hidden") {
 		b.AddCall(sourceApp, epname, t)
 	}
 	b.FinalApps = append(b.FinalApps, targetApp)
